@@ -771,7 +771,7 @@ func init() {
 		Real: []string{"pool.PeerPool (GetOwner, IsLocalOwner, rendezvousHash/rendezvousRanked, getHealthyOwner, Allocate/Release with forwarding, healthCheckLoop/checkPeer, AddPeer/RemovePeer, HTTP handlers)",
 			"net/http.Client timeouts, http.ServeMux routing"},
 		Stub:         []string{"network between the nodes (scn.vhNet)"},
-		Rule:         "cases: 1-5 (thorough: up to 8) nodes with generated ids, per-node peer list order/with-or-without-self/partly via AddPeer, then 5-24 ops {stable end-to-end check, hash check, AddPeer, RemovePeer on one/all nodes, partition (sym/one-way, stall/reset), heal, crash, restart, probe loss, sleep around threshold*interval, unhealthy-everywhere law, request under faults}; non-trivial = >=3 completed operations and (a fault fired or >2 context switches); distinct = distinct (case hash, schedule fingerprint)",
+		Rule:         "cases: 1-5 (thorough: up to 8) nodes with generated ids, per-node peer list order/with-or-without-self/partly via AddPeer, then 5-24 ops {stable end-to-end check, hash check, AddPeer, RemovePeer on one/all nodes, partition (sym/one-way, stall/reset), heal, crash, restart, probe loss, sleep around threshold*interval, unhealthy-everywhere law, a forwarded allocate whose answer is lost while the owner stays healthy (then the subscriber is requested everywhere), membership announcements as two overlapping AddPeer calls, request under faults}; non-trivial = >=3 completed operations and (a fault fired or >2 context switches); distinct = distinct (case hash, schedule fingerprint)",
 		QuickRuns:    4000,
 		ThoroughRuns: 200000,
 		Assumptions: []string{"node ids double as addresses (getPeerAddr) and are therefore generated from URL-host-safe strings; no duplicate ids in a configured list; a peer set never contains both x and x:8081 (the repository's address rule makes these two names of one node)",
